@@ -72,3 +72,16 @@ void h_pool_swap(void) {
   VASSERT(a.f4 == 20 && b.f4 == 10, "inline pool descriptors exchanged"); VASSERT(!(a.f6 & 1) && !(b.f6 & 1), "both still use their own inline table");
   VWITNESS("any");
 }
+
+/* ---- free list and id arithmetic: getSlot(id) addresses pool id / C, index id % C; a released slot is the next one issued,
+ * with the same id, without any allocator call (C06) */
+void h_pool_free_alloc(void) {
+  struct S_POut g; memset(&g, 0, sizeof g); w_pool_alloc(0, 1, 0, 0, 0, 0, &g); const unsigned C = g.f11, I = g.f12;
+  unsigned count = 1 + vin_u8() % (I < 4 ? I : 4), lu = vin_u8(), id = vin_u8();
+  VASSUME(lu >= 1 && lu <= C); VASSUME(id < (count - 1) * C + lu);       /* id of a slot in use */
+  struct S_POut o; memset(&o, 0, sizeof o); w_pool_free_alloc(count, lu, id, &o);
+  VASSERT(o.f0 & 1, "the released slot is handed out again (same address)"); VASSERT(o.f1 == id, "with the same id");
+  VASSERT(o.f4 == id % C, "getSlot(id) addresses index id % POOL_CAPACITY of pool id / POOL_CAPACITY");
+  VASSERT(o.f7 == 0 && o.f2 == count, "no allocator call, no new pool");
+  if (count > 1) VWITNESS("multi"); else VWITNESS("single");
+}
